@@ -172,12 +172,12 @@ impl PatchHeader {
                 subject.split_once('\n').map(|x| x.1).unwrap_or("")
             );
             self.0.set("Subject", new.as_str());
-        } else if let Some(description) = self.0.get("Description") {
+        } else if let Some(old) = self.0.get("Description") {
             // Replace the first line with ours
             let new = format!(
                 "{}\n{}",
-                description.split_once('\n').map(|x| x.1).unwrap_or(""),
-                description
+                description,
+                old.split_once('\n').map(|x| x.1).unwrap_or("")
             );
             self.0.set("Description", new.as_str());
         } else {
